@@ -61,7 +61,7 @@ Clauses(X, K, C) ==
         Cl("C08_Structure", IF done THEN C.relevant /\ C.dom ELSE FALSE, C08_Structure(C)),
         Cl("C08_States", IF done THEN C.relevant /\ C.dom /\ C.postOk ELSE FALSE, C08_States(C)),
         Cl("C08_Membership", IF done THEN C.relevant /\ C.dom /\ C.postOk ELSE FALSE, C08_Membership(X, C)),
-        Cl("C08_StatePreserved", IF done THEN C.relevant /\ C.dom /\ C.postOk /\ NoDeletions(t) ELSE FALSE, C08_StatePreserved(X, C)),
+        Cl("C08_StatePreserved", IF done THEN C.relevant /\ C.dom /\ C.postOk /\ NoDeletions(t) /\ PatchesBalanced(X, C) ELSE FALSE, C08_StatePreserved(X, C)),
         Cl("C04_Cfi", IF done THEN C.relevant /\ C.dom ELSE FALSE, C04_Cfi(C)) >>
 
 Diff(name, X, K, C) ==
